@@ -55,7 +55,7 @@ theorem mslabs_newRoot (d : Nat) (rid : SlabID) (l rr : MTree r d) :
   rw [mslabs_succ]
   simp [newRootOf, ment_succ]
 
-theorem splitRoot_acct {a : Nat} (d : Nat) (root : MTree r d) (ty cnt seed : Nat) (c : Ctx) {m3 : OMap r} {c3 : Ctx}
+theorem msplitRoot_acct {a : Nat} (d : Nat) (root : MTree r d) (ty cnt seed : Nat) (c : Ctx) {m3 : OMap r} {c3 : Ctx}
     (haddr : (MTree.hdr d root).id.addr = a)
     (hnd : (AList.keys (MTree.slabs d root)).Nodup)
     (hold : ∀ id ∈ AList.keys (MTree.slabs d root), Old a c.ctr id)
@@ -134,18 +134,19 @@ theorem splitIfFull_acct {a : Nat} (T' d : Nat) (root : MTree r d) (ty cnt seed 
     (hold : ∀ id ∈ AList.keys (MTree.slabs d root), Old a c.ctr id)
     (h : OMap.splitRootIfFull T' (⟨d, root, ty, cnt, seed⟩ : OMap r) c = .ok (m3, c3)) :
     ∃ E, MLog a c c3 E [] ∧ MAcct a c.ctr c3.ctr (MTree.slabs d root) (MTree.slabs m3.d m3.root) E [] ∧
-      lastAction E (MTree.hdr d root).id ≠ some false := by
+      lastAction E (MTree.hdr d root).id ≠ some false ∧ m3.rootID = (MTree.hdr d root).id := by
   simp only [OMap.splitRootIfFull] at h
   split at h
-  · obtain ⟨E, h1, h2, h3⟩ := splitRoot_acct d root ty cnt seed c haddr hnd hold h
-    exact ⟨E, h1, h2, by rw [h3]; simp⟩
+  · obtain ⟨E, h1, h2, h3⟩ := msplitRoot_acct d root ty cnt seed c haddr hnd hold h
+    obtain ⟨l, rr, c2, _, hm3, _⟩ := splitRoot_inv d root ty cnt seed c h
+    exact ⟨E, h1, h2, by rw [h3]; simp, by rw [hm3]; rfl⟩
   · simp only [Except.ok.injEq, Prod.mk.injEq] at h
     obtain ⟨rfl, rfl⟩ := h
-    exact ⟨[], MLog.refl a c, MAcct.refl a _ _, by simp⟩
+    exact ⟨[], MLog.refl a c, MAcct.refl a _ _, by simp, rfl⟩
 
 /-! ### promoteIfSingleChild -/
 
-theorem promote_acct {a : Nat} (d : Nat) (x : MMetaSlab (MTree r d)) (c : Ctx) {child : MTree r d}
+theorem mpromote_acct {a : Nat} (d : Nat) (x : MMetaSlab (MTree r d)) (c : Ctx) {child : MTree r d}
     (hc : x.children = [child])
     (hnd : (AList.keys (MTree.slabs (d + 1) x)).Nodup)
     (hold : ∀ id ∈ AList.keys (MTree.slabs (d + 1) x), Old a c.ctr id) :
@@ -215,7 +216,7 @@ theorem rootfix_acct_zero {a : Nat} (T' : Nat) (s : MDataSlab r) (ty cnt seed : 
     (h : (OMap.promoteIfSingleChild (⟨0, s, ty, cnt, seed⟩ : OMap r) c1).1.splitRootIfFull T'
         (OMap.promoteIfSingleChild (⟨0, s, ty, cnt, seed⟩ : OMap r) c1).2 = .ok (m3, c3)) :
     ∃ E, MLog a c1 c3 E [] ∧ MAcct a c1.ctr c3.ctr (MTree.slabs 0 s) (MTree.slabs m3.d m3.root) E [] ∧
-      lastAction E (MTree.hdr 0 s).id ≠ some false :=
+      lastAction E (MTree.hdr 0 s).id ≠ some false ∧ m3.rootID = (MTree.hdr 0 s).id :=
   splitIfFull_acct T' 0 s ty cnt seed c1 haddr hnd hold h
 
 theorem rootfix_acct_succ {a : Nat} (T' : Nat) {d : Nat} (x : MMetaSlab (MTree r d)) (ty cnt seed : Nat) (c1 : Ctx)
@@ -226,7 +227,7 @@ theorem rootfix_acct_succ {a : Nat} (T' : Nat) {d : Nat} (x : MMetaSlab (MTree r
     (h : (OMap.promoteIfSingleChild (⟨d + 1, x, ty, cnt, seed⟩ : OMap r) c1).1.splitRootIfFull T'
         (OMap.promoteIfSingleChild (⟨d + 1, x, ty, cnt, seed⟩ : OMap r) c1).2 = .ok (m3, c3)) :
     ∃ E, MLog a c1 c3 E [] ∧ MAcct a c1.ctr c3.ctr (MTree.slabs (d + 1) x) (MTree.slabs m3.d m3.root) E [] ∧
-      lastAction E x.hdr.id ≠ some false := by
+      lastAction E x.hdr.id ≠ some false ∧ m3.rootID = x.hdr.id := by
   have hm := hS.1
   have hlen := hS.2
   rcases hc : x.children with _ | ⟨child, _ | ⟨b, rest⟩⟩
@@ -234,14 +235,14 @@ theorem rootfix_acct_succ {a : Nat} (T' : Nat) {d : Nat} (x : MMetaSlab (MTree r
   · have hh : x.childHdrs = [MTree.hdr d child] := by rw [hm.2.1, hc]; rfl
     rw [promote_eq d x ty cnt seed c1 hh hc] at h
     simp only at h
-    obtain ⟨hlog2, hacct2, hla2⟩ := promote_acct (a := a) d x c1 hc hnd hold
+    obtain ⟨hlog2, hacct2, hla2⟩ := mpromote_acct (a := a) d x c1 hc hnd hold
     have hnd2 := hacct2.nodup hnd
     have hold2 := hacct2.old hold
-    obtain ⟨E3, hlog3, hacct3, hla3⟩ := splitIfFull_acct T' d (enroot d child x.hdr.id) ty cnt seed
+    obtain ⟨E3, hlog3, hacct3, hla3, hid3⟩ := splitIfFull_acct T' d (enroot d child x.hdr.id) ty cnt seed
       ((c1.emit (.store x.hdr.id)).emit (.remove (MTree.hdr d child).id))
       (by rw [hdr_enroot]; exact haddr) hnd2 hold2 h
-    rw [hdr_enroot] at hla3
-    refine ⟨[.store x.hdr.id, .remove (MTree.hdr d child).id] ++ E3, hlog2.trans hlog3, ?_, ?_⟩
+    rw [hdr_enroot] at hla3 hid3
+    refine ⟨[.store x.hdr.id, .remove (MTree.hdr d child).id] ++ E3, hlog2.trans hlog3, ?_, ?_, hid3⟩
     · have := hacct2.trans hacct3 hold
       simpa using this
     · rw [lastAction_keep hla2 hla3]; simp
@@ -255,7 +256,7 @@ theorem rootfix_acct {a : Nat} (T' : Nat) : ∀ (d : Nat) (root : MTree r d) (ty
     (OMap.promoteIfSingleChild (⟨d, root, ty, cnt, seed⟩ : OMap r) c1).1.splitRootIfFull T'
         (OMap.promoteIfSingleChild (⟨d, root, ty, cnt, seed⟩ : OMap r) c1).2 = .ok (m3, c3) →
     ∃ E, MLog a c1 c3 E [] ∧ MAcct a c1.ctr c3.ctr (MTree.slabs d root) (MTree.slabs m3.d m3.root) E [] ∧
-      lastAction E (MTree.hdr d root).id ≠ some false
+      lastAction E (MTree.hdr d root).id ≠ some false ∧ m3.rootID = (MTree.hdr d root).id
   | 0, s, ty, cnt, seed, c1, _, _, _, haddr, hnd, hold, h => rootfix_acct_zero T' s ty cnt seed c1 haddr hnd hold h
   | _ + 1, x, ty, cnt, seed, c1, _, _, hS, haddr, hnd, hold, h =>
     rootfix_acct_succ T' x ty cnt seed c1 hS haddr hnd hold h
@@ -264,6 +265,8 @@ theorem rootfix_acct {a : Nat} (T' : Nat) : ∀ (d : Nat) (root : MTree r d) (ty
 
 /-- all slab IDs of the map (data slabs, index slabs, external collision groups) are distinct -/
 def MIdsOk (m : OMap r) : Prop := ((MTree.slabs m.d m.root).map (·.1)).Nodup
+
+instance (m : OMap r) : Decidable (MIdsOk m) := by unfold MIdsOk; infer_instance
 
 theorem old_of_ctxOk {m : OMap r} {c : Ctx} (hc : CtxOk m c) :
     ∀ id ∈ AList.keys (MTree.slabs m.d m.root), Old m.addr c.ctr id := by
@@ -277,7 +280,7 @@ theorem omap_set_acct (hT : legalThreshold T = true) {cfg : MCfg} {m : OMap r} (
     (hr : m.set cfg k v c = .ok (old, m', c')) :
     ∃ E C, MLog m.addr c c' E C ∧
       MAcct m.addr c.ctr c'.ctr (MTree.slabs m.d m.root) (MTree.slabs m'.d m'.root) E (C.map (·.1)) ∧
-      lastAction E m.rootID = some true := by
+      lastAction E m.rootID = some true ∧ m'.rootID = m.rootID := by
   have hc' : CfgFor cfg T (r + 1) := ⟨hcfg.1, hcfg.2.1⟩
   have hold := old_of_ctxOk hc
   have haddr : cfg.addr = m.addr := hcfg.2.2
@@ -299,10 +302,10 @@ theorem omap_set_acct (hT : legalThreshold T = true) {cfg : MCfg} {m : OMap r} (
       obtain ⟨m3, c3⟩ := p
       simp only [Except.ok.injEq, Prod.mk.injEq] at hr
       obtain ⟨_, rfl, rfl⟩ := hr
-      obtain ⟨E2, hlog2, hacct2, hla2⟩ := rootfix_acct (T := T) (D := D) cfg.T d root' ty _ seed c1 m3 c3 hp.sinv
+      obtain ⟨E2, hlog2, hacct2, hla2, hid2⟩ := rootfix_acct (T := T) (D := D) cfg.T d root' ty _ seed c1 m3 c3 hp.sinv
         (by rw [hid]; exact hra) (hacct1.nodup hids) (hacct1.old hold) hfix
-      rw [hid] at hla2
-      refine ⟨E1 ++ E2, C1, by simpa using hlog1.trans hlog2, by simpa using hacct1.trans hacct2 hold, ?_⟩
+      rw [hid] at hla2 hid2
+      refine ⟨E1 ++ E2, C1, by simpa using hlog1.trans hlog2, by simpa using hacct1.trans hacct2 hold, ?_, hid2⟩
       exact lastAction_keep hla1 hla2
 
 theorem omap_remove_acct (hT : legalThreshold T = true) {cfg : MCfg} {m : OMap r} (hcfg : CfgOk cfg T m)
@@ -311,7 +314,7 @@ theorem omap_remove_acct (hT : legalThreshold T = true) {cfg : MCfg} {m : OMap r
     (hr : m.remove cfg k c = .ok (k0, v0, m', c')) :
     ∃ E C, MLog m.addr c c' E C ∧
       MAcct m.addr c.ctr c'.ctr (MTree.slabs m.d m.root) (MTree.slabs m'.d m'.root) E (C.map (·.1)) ∧
-      lastAction E m.rootID = some true := by
+      lastAction E m.rootID = some true ∧ m'.rootID = m.rootID := by
   have hc' : CfgFor cfg T (r + 1) := ⟨hcfg.1, hcfg.2.1⟩
   have hold := old_of_ctxOk hc
   have haddr : cfg.addr = m.addr := hcfg.2.2
@@ -332,10 +335,10 @@ theorem omap_remove_acct (hT : legalThreshold T = true) {cfg : MCfg} {m : OMap r
       obtain ⟨m3, c3⟩ := p
       simp only [Except.ok.injEq, Prod.mk.injEq] at hr
       obtain ⟨_, _, rfl, rfl⟩ := hr
-      obtain ⟨E2, hlog2, hacct2, hla2⟩ := rootfix_acct (T := T) (D := D) cfg.T d root' ty _ seed c1 m3 c3 hp.sinv
+      obtain ⟨E2, hlog2, hacct2, hla2, hid2⟩ := rootfix_acct (T := T) (D := D) cfg.T d root' ty _ seed c1 m3 c3 hp.sinv
         (by rw [hid]; exact hra) (hacct1.nodup hids) (hacct1.old hold) hfix
-      rw [hid] at hla2
-      refine ⟨E1 ++ E2, C1, by simpa using hlog1.trans hlog2, by simpa using hacct1.trans hacct2 hold, ?_⟩
+      rw [hid] at hla2 hid2
+      refine ⟨E1 ++ E2, C1, by simpa using hlog1.trans hlog2, by simpa using hacct1.trans hacct2 hold, ?_, hid2⟩
       exact lastAction_keep hla1 hla2
   · have hne : ∀ p ∈ MTree.toList d root, p.1 ≠ k := by
       intro p hp he
